@@ -660,6 +660,135 @@ fn e2e_case(prop: &str, docs: Vec<EDoc>, tmproot: &Path, idx: u64) -> CaseRec {
     CaseRec { op: format!("rundocs {}", model_docs.join("|")), impl_out, oracle_fail: keep(prop, fails), nontrivial: docs.iter().map(|d| d.tests.len()).sum::<usize>() >= 2, tags }
 }
 
+/// prepend / append documents from the front-matter and from -P / -A: one run, one main document;
+/// every test appends its position in the expected order to the marker file
+fn prepend_append_case(prop: &str, idx: u64, uid: u64, tmproot: &Path) -> CaseRec {
+    let mut r = idx;
+    let mut take = |n: u64| {
+        let v = r % n;
+        r /= n;
+        v as usize
+    };
+    let (cli_pre, fm_pre, fm_post, cli_post) = (take(3), take(3), take(3), take(3));
+    let failing_pos = take(4); // which group holds one failing test (0 = none)
+    let dir = tmproot.join(format!("pa-{uid}-{idx}"));
+    let _ = std::fs::remove_dir_all(&dir);
+    std::fs::create_dir_all(dir.join("tmp")).unwrap();
+    std::fs::create_dir_all(dir.join("docs/sub")).unwrap();
+    let marker = dir.join("marker");
+    let mut pos = 0usize;
+    let mut expected_kinds: Vec<&'static str> = vec![];
+    let mut mk_doc = |path: &Path, ntests: usize, front: &str, fail: bool, pos: &mut usize, kinds: &mut Vec<&'static str>| {
+        let mut s = String::from(front);
+        for t in 0..ntests {
+            let bad = fail && t == 0;
+            s.push_str(&format!("# D0T{0}\n\n```scrut\n$ echo D0T{0} >> {1}; echo {2}\nok\n```\n\n", *pos, marker.display(), if bad { "bad" } else { "ok" }));
+            kinds.push(if bad { "malformed_output" } else { "success" });
+            *pos += 1;
+        }
+        std::fs::write(path, s).unwrap();
+    };
+    let mut cli_pre_paths = vec![];
+    for i in 0..cli_pre {
+        let p = dir.join(format!("cli-pre{i}.md"));
+        mk_doc(&p, 1, "", failing_pos == 1 && i == 0, &mut pos, &mut expected_kinds);
+        cli_pre_paths.push(p);
+    }
+    let mut fm = String::new();
+    let mut fm_pre_names = vec![];
+    for i in 0..fm_pre {
+        let p = dir.join(format!("docs/sub/fm-pre{i}.md"));
+        mk_doc(&p, 1, "", false, &mut pos, &mut expected_kinds);
+        fm_pre_names.push(format!("sub/fm-pre{i}.md"));
+    }
+    let own_start = pos;
+    // the main document is written after its prepends are numbered, its appends after it
+    let own_tests = 2;
+    pos += own_tests;
+    let mut own_kinds: Vec<&'static str> = (0..own_tests).map(|t| if failing_pos == 2 && t == 0 { "malformed_output" } else { "success" }).collect();
+    let mut tail_kinds: Vec<&'static str> = vec![];
+    let mut fm_post_names = vec![];
+    for i in 0..fm_post {
+        let p = dir.join(format!("docs/fm-post{i}.md"));
+        mk_doc(&p, 1, "", false, &mut pos, &mut tail_kinds);
+        fm_post_names.push(format!("fm-post{i}.md"));
+    }
+    let mut cli_post_paths = vec![];
+    for i in 0..cli_post {
+        let p = dir.join(format!("cli-post{i}.md"));
+        mk_doc(&p, 1, "", failing_pos == 3 && i == 0, &mut pos, &mut tail_kinds);
+        cli_post_paths.push(p);
+    }
+    if !fm_pre_names.is_empty() || !fm_post_names.is_empty() {
+        fm.push_str("---\n");
+        if !fm_pre_names.is_empty() {
+            fm.push_str(&format!("prepend: [{}]\n", fm_pre_names.join(", ")));
+        }
+        if !fm_post_names.is_empty() {
+            fm.push_str(&format!("append: [{}]\n", fm_post_names.join(", ")));
+        }
+        fm.push_str("---\n\n");
+    }
+    let main = dir.join("docs/main.md");
+    {
+        let mut p2 = own_start;
+        let mut k2 = vec![];
+        mk_doc(&main, own_tests, &fm, failing_pos == 2, &mut p2, &mut k2);
+    }
+    expected_kinds.append(&mut own_kinds);
+    expected_kinds.append(&mut tail_kinds);
+    let total = pos;
+    let mut cmd = std::process::Command::new(scrut_bin());
+    cmd.arg("test").arg("-r").arg("json");
+    if !cli_pre_paths.is_empty() {
+        cmd.arg("-P");
+        cmd.args(&cli_pre_paths);
+    }
+    if !cli_post_paths.is_empty() {
+        cmd.arg("-A");
+        cmd.args(&cli_post_paths);
+    }
+    // `--` ends the multi-value options
+    let out = cmd.arg("--").arg(&main).current_dir(&dir).env("TMPDIR", dir.join("tmp")).output().expect("run scrut");
+    let code = out.status.code().unwrap_or(-1);
+    let stdout = String::from_utf8_lossy(&out.stdout).to_string();
+    let json: Option<serde_json::Value> = stdout.find('[').and_then(|p| serde_json::from_str(&stdout[p..]).ok());
+    let mut got: Vec<(usize, String)> = vec![];
+    if let Some(serde_json::Value::Array(items)) = &json {
+        for it in items {
+            let title = it.get("title").and_then(|t| t.as_str()).or_else(|| it.pointer("/testcase/title").and_then(|t| t.as_str())).unwrap_or("");
+            let kind = it.pointer("/result/kind").and_then(|k| k.as_str()).unwrap_or("?").to_string();
+            if let Some(i) = title.strip_prefix("D0T").and_then(|x| x.parse::<usize>().ok()) {
+                got.push((i, kind));
+            }
+        }
+    }
+    let mut fails = vec![];
+    let marks: Vec<String> = std::fs::read_to_string(&marker).unwrap_or_default().lines().map(|l| l.to_string()).collect();
+    let want_marks: Vec<String> = (0..total).map(|i| format!("D0T{i}")).collect();
+    if marks != want_marks {
+        fails.push(("C20:prepend-append-order".to_string(), format!("executed {:?}, expected {:?} (cli -P {cli_pre}, front-matter prepend {fm_pre}, append {fm_post}, cli -A {cli_post}); stderr: {}", marks, want_marks, String::from_utf8_lossy(&out.stderr).chars().take(200).collect::<String>())));
+    }
+    let want: Vec<(usize, String)> = expected_kinds.iter().enumerate().map(|(i, k)| (i, k.to_string())).collect();
+    if got != want {
+        fails.push(("C20:results-e2e".to_string(), format!("reported {:?}, expected {:?}", got, want)));
+    }
+    let want_exit = if expected_kinds.iter().any(|k| *k != "success") { 50 } else { 0 };
+    if code != want_exit {
+        fails.push(("C20:exit-status".to_string(), format!("exit status {code}, expected {want_exit}")));
+    }
+    let _ = std::fs::remove_dir_all(&dir);
+    // model: one document whose test list is prepend ++ own ++ append
+    let ts: Vec<T> = expected_kinds.iter().map(|k| T { expected: None, stream: 'o', skip: Some(80), timeout: None, acc_empty: false, status: St::Code(0), acc_out: *k == "success", acc_err: true, dur: None }).collect();
+    CaseRec {
+        op: format!("rundocs {}", doc_field(false, None, &ts)),
+        impl_out: format!("{} exit={}", got.iter().map(|(i, k)| format!("{i}:{k}")).collect::<Vec<_>>().join(","), code),
+        oracle_fail: keep(prop, fails),
+        nontrivial: cli_pre + fm_pre + fm_post + cli_post >= 1,
+        tags: vec!["e2e:prepend-append".into()],
+    }
+}
+
 fn gen_edoc(rng: &mut Rng, allow_broken: bool) -> EDoc {
     let cram = rng.chance(1, 4);
     let broken = allow_broken && rng.chance(1, 12);
@@ -867,6 +996,17 @@ pub fn run(ctx: &Ctx, prop: &str) {
         let tests = vec![(a, None), (Beh::Pass, None), (b, None), (Beh::Pass, None)];
         Some(e2e_case(prop, vec![EDoc { cram: true, broken: false, total: None, tests }], &tr, 20_000 + idx))
     });
+    // 3c. prepend / append from front-matter and command line (C20; thorough for the others)
+    if prop == "C20" || ctx.thorough {
+        let tr = tmproot.clone();
+        let all = 81 * 4;
+        let n = if ctx.thorough { all } else { 40 };
+        ctx.run_stream("e2e-prepend-append", n, ctx.thorough, |i| {
+            // quick: a seeded sample of the 324 combinations; thorough: all of them
+            let idx = if ctx.thorough { i } else { Rng::fork(seed, 13, i).below(all) };
+            Some(prepend_append_case(prop, idx, i, &tr))
+        });
+    }
     // 4. wall-clock documents (C14; a short list, each a few seconds at most)
     if prop == "C14" || ctx.thorough {
         let docs = timed_docs();
